@@ -24,6 +24,7 @@ pub fn transliterate(sql: &str, from: From) -> Option<String> {
         let c = t[i];
         if c == '`' && from == From::My { let (v, e) = lexers::quoted_ident(&t[i..], '`')?; toks.push(sqlite_ident(&v)); i += e; continue; }
         if c == '"' { let (v, e) = lexers::quoted_ident(&t[i..], '"')?; toks.push(sqlite_ident(&v)); i += e; continue; }
+        if c == '\'' && from == From::Pg { if let Some((bytes, e)) = lexers::pg_bytea_lit(&t[i..]) { toks.push(format!("x'{}'", bytes.iter().map(|b| format!("{b:02X}")).collect::<String>())); i += e; continue; } }
         if c == '\'' || (from == From::Pg && c == 'E' && i + 1 < t.len() && t[i + 1] == '\'' && (i == 0 || !t[i - 1].is_alphanumeric())) {
             let (v, e) = if from == From::My { lexers::mysql_string_lit(&t[i..])? } else { lexers::pg_string_lit(&t[i..])? };
             toks.push(sqlite_str(&v)); i += e; continue;
